@@ -95,6 +95,15 @@ func (vc *VC) newFrame(fn *ssa.Function, con *Contract, depth int) *frame {
 				if ins.Comment != "" {
 					f.names[ins.Comment] = append(f.names[ins.Comment], nameDef{val: ins, block: b, idx: i})
 				}
+			case *ssa.Alloc:
+				// a variable that lives in a cell (address taken or captured by a closure)
+				switch ins.Comment {
+				case "", "complit", "varargs", "slicelit", "makeslice", "new", "range", "typeswitch":
+				default:
+					if !strings.Contains(ins.Comment, " ") && !strings.Contains(ins.Comment, ".") {
+						f.names[ins.Comment] = append(f.names[ins.Comment], nameDef{val: ins, isAddr: true, block: b, idx: i})
+					}
+				}
 			case *ssa.DebugRef:
 				if id, ok := ins.Expr.(*ast.Ident); ok {
 					f.names[id.Name] = append(f.names[id.Name], nameDef{val: ins.X, isAddr: ins.IsAddr, block: b, idx: i})
@@ -152,6 +161,30 @@ func (f *frame) resolveParam(name string, st State) (TV, bool) {
 // (parameters are assignable in Go, so they are looked up here first).
 func (f *frame) resolveLocal(name string, b *ssa.BasicBlock, idx int, st State) (TV, bool) {
 	defs := f.names[name]
+	// a variable that lives in a cell (address taken / captured): always read the cell, also where
+	// the debug information of its initialisation names the stored value
+	for i := range defs {
+		d := &defs[i]
+		if !d.isAddr || b == nil {
+			continue
+		}
+		if _, ok := d.val.(*ssa.Alloc); !ok {
+			continue
+		}
+		def := d.val.(*ssa.Alloc)
+		if def.Block() == nil || !(def.Block() == b || def.Block().Dominates(b)) {
+			continue
+		}
+		if _, known := f.vals[def]; !known {
+			continue
+		}
+		v := f.val(def)
+		pt := def.Type().Underlying().(*types.Pointer)
+		if strings.HasPrefix(v.S, "@local:") {
+			return TV{T: f.loadLocal(st, v, pt.Elem()), Ty: goTy(pt.Elem())}, true
+		}
+		return TV{T: f.vc.load(st, v, pt.Elem()), Ty: goTy(pt.Elem())}, true
+	}
 	var best *nameDef
 	for i := range defs {
 		d := &defs[i]
@@ -202,6 +235,17 @@ func (f *frame) resolveLocal(name string, b *ssa.BasicBlock, idx int, st State) 
 func (f *frame) envAt(b *ssa.BasicBlock, idx int, st State) *Env {
 	e := &Env{vc: f.vc, bound: map[string]TV{}, state: st, old: f.old, pkg: f.pkg()}
 	e.lookup = func(name string) (TV, bool) { return f.resolveAt(name, b, idx, st) }
+	// captured variables of a closure under contract are cells
+	for _, fv := range f.fn.FreeVars {
+		if pt, ok := fv.Type().Underlying().(*types.Pointer); ok {
+			if c := f.val(fv); !strings.HasPrefix(c.S, "@local:") {
+				if e.derefs == nil {
+					e.derefs = map[string]derefBinding{}
+				}
+				e.derefs[fv.Name()] = derefBinding{cell: c, elem: pt.Elem()}
+			}
+		}
+	}
 	e.oldLookup = func(name string) (TV, bool) {
 		// old(x): a parameter's entry value; other names are evaluated in the entry state
 		if tv, ok := f.resolveParam(name, f.old); ok {
